@@ -157,6 +157,46 @@ func enumerate(t *testing.T, plan harness.Plan, name string, alpha []string, max
 	harness.SetExhaustive(name, fmt.Sprintf("every string of length 1..%d over the %d-symbol alphabet %q (split over %d shard(s))", maxLen, k, alpha, shards))
 }
 
+// codePoints: every non-ASCII code point as the neighbour of a delimiter run.
+// Flanking depends on whether the neighbour is Unicode white space, Unicode
+// punctuation or neither; five templates tell the three classes apart on
+// either side of a run. Quick: the whole Basic Multilingual Plane and every
+// 17th code point above it; thorough: every code point.
+func codePoints(t *testing.T, plan harness.Plan) {
+	const name = "code_points"
+	cfg := harness.Cfg()
+	shards, stride := 1, rune(17)
+	if cfg.Tier == "thorough" {
+		shards, stride = 16, 1
+	}
+	n := 0
+	for r := rune(0x80); r <= 0x10FFFF; r++ {
+		if r >= 0xD800 && r <= 0xDFFF {
+			continue
+		}
+		if r > 0xFFFF && r%stride != 0 {
+			continue
+		}
+		n++
+		if n%shards != cfg.Shard%shards {
+			continue
+		}
+		c := string(r)
+		for ti, s := range []string{"a" + c + "_b_", "_b_" + c + "a", "*" + c + "b*", "*b" + c + "*", "a*" + c + "b* c*", "*a *b" + c + "*c"} {
+			err := check(s)
+			harness.CountRaw(name, uint64(r)<<3|uint64(ti), true, func() string { return fmt.Sprintf("%q (U+%04X)", s, r) })
+			if err != nil && harness.Fail(t, plan, name, harness.Case{In: []byte(s)}, err) {
+				return
+			}
+		}
+	}
+	if stride == 1 {
+		harness.SetExhaustive(name, "six templates x every code point U+0080..U+10FFFF except surrogates")
+	} else {
+		harness.SetExhaustive(name, "six templates x every code point U+0080..U+FFFF except surrogates and every 17th code point U+10000..U+10FFFF")
+	}
+}
+
 // longRuns: one run of every length up to 700 in a few templates.
 func longRuns(t *testing.T, plan harness.Plan) {
 	if harness.Cfg().Shard != 0 {
@@ -292,8 +332,14 @@ func TestProperty(t *testing.T) {
 	}}
 	plan.Checks = append(plan.Checks, harness.Check{Name: "long_runs", Prop: propOne,
 		Rule: "templates with one delimiter run of every length 1..700 (a{N}b**, **a{N}b, {N}a{M} ...) for both delimiters: run lengths far beyond what enumeration reaches, around 255/256 and 65535-style boundaries of narrow counters; " + ruleNT})
+	plan.Checks = append(plan.Checks, harness.Check{Name: "code_points", Prop: propOne,
+		Rule: "every non-ASCII code point (quick: the whole BMP and every 17th code point above; thorough: all) directly before and after delimiter runs in six templates that tell Unicode white space, Unicode punctuation and other characters apart; " + ruleNT})
 	plan.After = func(t *testing.T) {
 		longRuns(t, plan)
+		if t.Failed() {
+			return
+		}
+		codePoints(t, plan)
 		if t.Failed() {
 			return
 		}
